@@ -25,12 +25,18 @@ type c08Job struct {
 	Fates    []string `json:"fates"`    // per slot: deliver | drop | dup
 	Early    string   `json:"early"`    // none | dialfail | badreply | ok-drop | ok-deliver
 	Between  string   `json:"between"`  // none | rotate | restart
+	Base     int      `json:"base"`     // first timeslot (0 = the default colliding base)
 }
 
 const c08Base = 2099 // timeslot of the first reading: bits 3,4,5 of one bitfield byte, so that a mirrored or shifted bit mapping makes a delivered slot shadow a lost one
 
 func c08Run(j c08Job) *jobReport {
 	rep := &jobReport{Reasons: map[string]int{}}
+	c08Base := c08Base
+	if j.Base != 0 {
+		c08Base = j.Base
+	}
+	readingClass := func(j c08Job, ts uint32) string { return readingClassAt(j, ts, c08Base) }
 	cfgDesc := fmt.Sprintf("%+v", j)
 	header := "timestamp,energy (mWh)\n"
 	p, err := newPairWorld("c08", 10000, []string{fmt.Sprintf("now:%d", c08Base)}, &header, 2000)
@@ -196,7 +202,7 @@ func c08Run(j c08Job) *jobReport {
 	return rep
 }
 
-func readingClass(j c08Job, ts uint32) string {
+func readingClassAt(j c08Job, ts uint32, c08Base int) string {
 	i := int(ts) - c08Base
 	if i < 0 || i >= len(j.Readings) {
 		return "?"
@@ -262,7 +268,7 @@ func init() {
 				}
 				for _, e := range []string{"none", "dialfail", "badreply", "ok-drop", "ok-deliver"} {
 					for _, b := range []string{"none", "rotate", "restart"} {
-						jobs = append(jobs, c08Job{append([]string(nil), rs...), append([]string(nil), fs...), e, b})
+						jobs = append(jobs, c08Job{Readings: append([]string(nil), rs...), Fates: append([]string(nil), fs...), Early: e, Between: b})
 					}
 				}
 				return
@@ -278,8 +284,28 @@ func init() {
 			}
 		}
 		rec(nil, nil)
+		// dense runs: 18 consecutive slots starting at a byte boundary of the bitfield, exactly one (or no, or
+		// two adjacent) original lost - full bitfield bytes next to a gap, gaps at every bit position
+		const denseBase, denseN = 2096, 18
+		for drop := -1; drop < denseN; drop++ {
+			for _, second := range []int{-1, drop + 1} {
+				if second >= denseN || (drop < 0 && second >= 0) {
+					continue
+				}
+				var rs, fs []string
+				for i := 0; i < denseN; i++ {
+					rs = append(rs, []string{"5000", "-3000", "10"}[i%3])
+					if i == drop || i == second {
+						fs = append(fs, "drop")
+					} else {
+						fs = append(fs, "deliver")
+					}
+				}
+				jobs = append(jobs, c08Job{Readings: rs, Fates: fs, Early: "none", Between: "none", Base: denseBase})
+			}
+		}
 		run.Assumption("loss, duplication and reordering are decided per datagram by the scripted network; readings fit 32 signed bits (the property's own restriction)")
-		rc := runJobCheck(run, "c08", jobs, "every combination of per-slot reading {none, +5000, -3000, sentinel 2 (, sentinel 3, 70000)} x fate of the original datagram {delivered, dropped, duplicated} x earlier sync round {none, dial fails, malformed reply, ok with all retransmissions dropped, ok delivered} x {nothing, week rotation, server restart} before a final fault-free round on a real client and a real server; afterwards every datagram ever on the wire is re-delivered in reverse order; distinct = (fate, early round, in-between event) classes; executions = evaluations")
+		rc := runJobCheck(run, "c08", jobs, "every combination of per-slot reading {none, +5000, -3000, sentinel 2 (, sentinel 3, 70000)} x fate of the original datagram {delivered, dropped, duplicated} x earlier sync round {none, dial fails, malformed reply, ok with all retransmissions dropped, ok delivered} x {nothing, week rotation, server restart} before a final fault-free round on a real client and a real server; afterwards every datagram ever on the wire is re-delivered in reverse order; plus dense runs of 18 consecutive slots from a bitfield byte boundary with none / each single / each adjacent pair of originals lost; distinct = (fate, early round, in-between event) classes; executions = evaluations")
 		return rc
 	}
 }
